@@ -1031,6 +1031,8 @@ class Evaluator:
         if op in ("kleiner", "groesser", "kleinergleich", "groessergleich"):
             if (ta == K and math.isnan(a)) or (tb == K and math.isnan(b)):
                 raise ModelDomain("NaN comparison")
+            if K in (ta, tb):      # a Zahl/Byte operand is converted to Kommazahl first (rounding to nearest), not compared exactly
+                a, b = float(a), float(b)
             return {"kleiner": a < b, "groesser": a > b, "kleinergleich": a <= b, "groessergleich": a >= b}[op]
         if op == "verkettet":
             if (isinstance(a, (str, list)) and len(a) > 4000) or (isinstance(b, (str, list)) and len(b) > 4000):
